@@ -238,8 +238,13 @@ func (r *Run) Get(key string) int {
 // Inconclusive records a reason why the run cannot give a verdict
 func (r *Run) Inconclusive(reason string) {
 	r.mu.Lock()
+	defer r.mu.Unlock()
+	for _, x := range r.inconcl {
+		if x == reason {
+			return
+		}
+	}
 	r.inconcl = append(r.inconcl, reason)
-	r.mu.Unlock()
 }
 
 // Violations returns the number of (not known) violations recorded so far
